@@ -43,6 +43,7 @@ type info struct {
 	mu                 sync.Mutex
 	log                *vh.Log
 	paired, auto, wait bool
+	slowClosed         bool
 	rd                 *reader
 }
 
@@ -55,6 +56,14 @@ func (f *info) IsAutoAcceptEnabled() bool        { f.mu.Lock(); defer f.mu.Unloc
 func (f *info) AllowWaitingForTrust(string) bool { f.mu.Lock(); defer f.mu.Unlock(); return f.wait }
 func (f *info) HandleConnectionClosed(_ api.ShipConnectionInterface, completed bool) {
 	f.log.Add("closed", vh.B(completed))
+	f.mu.Lock()
+	slow := f.slowClosed
+	f.mu.Unlock()
+	if slow {
+		// the hub (and the application behind it) takes its time over the end of a connection: during a step with two calls at
+		// the same time the second cause of the end arrives while this notification is still running
+		time.Sleep(3 * time.Millisecond)
+	}
 }
 func (f *info) ReportServiceShipID(_ string, id string) { f.log.Add("id", absID(id)) }
 func (f *info) HandleShipHandshakeStateUpdate(_ string, s model.ShipState) {
@@ -755,6 +764,9 @@ func runTest(t *test, seed int) (obsTrace, *divergence) {
 				}
 				f1 := parCall(e, a.C1, pick, token)
 				f2 := parCall(e, a.C2, pick, token)
+				e.info.mu.Lock()
+				e.info.slowClosed = true
+				e.info.mu.Unlock()
 				f = func() {
 					start := make(chan struct{})
 					r1 := make(chan *vh.CallResult, 1)
@@ -872,6 +884,20 @@ func runTest(t *test, seed int) (obsTrace, *divergence) {
 	}
 	if needDrain && !stop {
 		sleepReleased(1300 * time.Millisecond)
+		// on a loaded machine a delayed goroutine of the library can be late: a transport that is closed while the end of the
+		// connection has not been reported yet is given more time (bounded) before the last observation is taken
+		for k := 0; k < 150; k++ {
+			late := false
+			for _, e := range eps {
+				if !e.dead && e.w.isClosed() && countEv(e.log, "closed") == 0 {
+					late = true
+				}
+			}
+			if !late {
+				break
+			}
+			sleepReleased(20 * time.Millisecond)
+		}
 		for _, n := range names {
 			e := eps[n]
 			if e.dead {
